@@ -33,6 +33,22 @@ fn is_comment_character(c: char) -> bool {
     matches!(c, '#' | '-' | '/' | '*' | '!')
 }
 
+/// Verification hooks (see `crate::verif_hooks`).
+#[cfg(kani)]
+pub mod verif {
+    use harper_core::{Span, Token};
+
+    pub fn without_initiators(source: &[char]) -> Span {
+        super::without_initiators(source)
+    }
+    pub fn mark_inline_tags(tokens: &mut [Token]) {
+        super::jsdoc::mark_inline_tags(tokens)
+    }
+    pub fn parse_inline_tag(tokens: &[Token]) -> Option<usize> {
+        super::jsdoc::verif_parse_inline_tag(tokens)
+    }
+}
+
 #[cfg(test)]
 mod tests {
     use super::without_initiators;
